@@ -231,7 +231,9 @@ def _coq_make(d, jobs, timeout):
     cp = os.path.join(d, "_CoqProject")
     if (not os.path.exists(mk)) or os.path.getmtime(mk) < os.path.getmtime(cp):
         sh(["coq_makefile", "-f", "_CoqProject", "-o", "Makefile.coq"], cwd=d, check=True)
-    rc, out, err = sh(["make", "-f", "Makefile.coq", "-k", "-j%d" % jobs], cwd=d, timeout=timeout)
+    # every single file is limited (a runaway tactic must not hang the check): VERIF_COQC_TIMEOUT seconds
+    per_file = os.environ.get("VERIF_COQC_TIMEOUT", "900")
+    rc, out, err = sh(["make", "-f", "Makefile.coq", "-k", "-j%d" % jobs, "COQC=timeout %s coqc" % per_file], cwd=d, timeout=timeout)
     return rc, out + "\n" + err
 
 
